@@ -40,7 +40,21 @@ def flipBit (w : Bytes) (bit : Nat) : Bytes :=
 def claimed (w : Bytes) : List (Nat × Nat) :=
   Spec.signedRanges w ++ (Spec.sigValueRange w).toList ++ (Spec.paramsRange w).toList
 
-def specFlip (mk : Mk) (bit : Nat) (v : Char) : List SpecFail :=
+/-- value bytes of the ParametersSha256Digest component (last name component, type 2) of an Interest
+    that carries ApplicationParameters -/
+def digestRange (w : Bytes) : Option (Nat × Nat) :=
+  match Spec.elements w with
+  | some (o, ts) =>
+    if o.typ ≠ 5 ∨ (Spec.findT ts 36).isNone then none else
+    match Spec.findT ts 7 with
+    | some nm =>
+      match ((Spec.tlvs nm.val).getD []).getLast? with
+      | some c => if c.typ = 2 then some (nm.off + nm.hdr + c.off + c.hdr, nm.off + nm.hdr + c.off + c.hdr + c.val.length) else none
+      | none => none
+    | none => none
+  | none => none
+
+def specFlip (mk : Mk) (bit : Nat) (v : Char) (cuts : String := "c") : List SpecFail :=
   let inClaim := Spec.inRanges (claimed mk.w) (bit / 8)
   let region := if Spec.inRanges (Spec.signedRanges mk.w) (bit / 8) then "signed"
     else if Spec.inRanges (Spec.sigValueRange mk.w).toList (bit / 8) then "sigvalue" else "params"
@@ -50,9 +64,14 @@ def specFlip (mk : Mk) (bit : Nat) (v : Char) : List SpecFail :=
   -- a Go panic while decoding tampered bytes ('p') is a decoding failure for THIS property (the
   -- packet is not accepted); crash-freedom on arbitrary bytes is property C04. The model predicts
   -- every verdict it can decide, so an unexpected panic still surfaces as a DIFF.
+  let inDigest := Spec.inRanges (digestRange mk.w).toList (bit / 8)
   if applies ∧ (v == 'a' ∨ v == 'n') then
-    [⟨"tamper-detected", region ++ "-" ++ String.singleton mk.kind ++ "-" ++ mk.signer,
-      s!"bit {bit} (byte {bit / 8}, {region}) flipped: the packet still decodes and is not rejected (verdict {v})"⟩]
+    [⟨"tamper-detected", region ++ "-" ++ String.singleton mk.kind ++ "-" ++ (mk.signer.splitOn ":").head!,
+      s!"bit {bit} (byte {bit / 8}, {region}) flipped, reader {cuts}: the packet still decodes and is not rejected (verdict {v})"⟩]
+  else if inDigest ∧ v != 'e' ∧ v != 'p' then
+    -- "one whose digest does not match is rejected on decode"
+    [⟨"digest-checked", String.singleton mk.kind ++ "-" ++ (mk.signer.splitOn ":").head!,
+      s!"bit {bit} of the ParametersSha256Digest component flipped, reader {cuts}: the Interest still decodes (verdict {v})"⟩]
   else []
 
 def stepC12 (st : St) (op : String) (got : String) : StepResult St :=
@@ -77,7 +96,7 @@ def stepC12 (st : St) (op : String) (got : String) : StepResult St :=
     match st.last with
     | none => { st := st, expected := some "skip" }
     | some mk =>
-      match readerOf mk.w cuts with
+      match readerOf mk.w cuts mk.segLens with
       | none => { st := st, expected := some "bad-op" }
       | some r =>
         let (v, cov) := modelVerdict mk r
@@ -91,10 +110,13 @@ def stepC12 (st : St) (op : String) (got : String) : StepResult St :=
         let hasVal := (validatorType mk.signer).isSome ∧ mk.signed
         let spec : List SpecFail :=
           (if isCrash got then [⟨"no-panic", "val", tk got 160⟩] else []) ++
+          (if got == "e" then
+            [⟨"decodes", String.singleton mk.kind ++ "-" ++ (mk.signer.splitOn ":").head!,
+              s!"a packet built through the API does not decode (reader {cuts})"⟩] else []) ++
           (if (got.splitOn " cov=ne").length > 1 then
             [⟨"covered", String.singleton mk.kind ++ "-" ++ mk.signer,
               s!"the signed portion reported by the parser (cuts {cuts}) differs from the bytes handed to the signer"⟩] else []) ++
-          (if hasVal ∧ !got.startsWith "a" ∧ !isCrash got then
+          (if hasVal ∧ !got.startsWith "a" ∧ got != "e" ∧ !isCrash got then
             [⟨"accepts", String.singleton mk.kind ++ "-" ++ mk.signer,
               s!"the untampered packet is not accepted by the matching validator (cuts {cuts}): {tk got 40}"⟩] else []) ++
           (match mk.handedCov with
@@ -103,33 +125,43 @@ def stepC12 (st : St) (op : String) (got : String) : StepResult St :=
                  "the signer was handed bytes other than the signed portion the packet format prescribes"⟩] else []
            | none => [])
         { st := st, expected := some expected, spec := spec,
-          cov := [if cuts == "c" then "val-contiguous" else "val-segmented"] ++ (if v == 'a' then ["val-accept"] else if v == 'n' then ["val-novalidator"] else []) }
-  | ["flip", b] =>
+          cov := [if cuts == "c" then "val-contiguous" else if cuts == "own" then "val-own" else "val-segmented"] ++ (if v == 'a' then ["val-accept"] else if v == 'n' then ["val-novalidator"] else []) }
+  | "flip" :: b :: rest =>
+    let cuts := rest.headD "c"
     match st.last, b.toNat? with
     | some mk, some bit =>
       if bit ≥ 8 * mk.w.length then { st := st, expected := some "skip" } else
-      let (v, _) := modelVerdict mk (newBufferReader (flipBit mk.w bit))
-      let gv := got.toList.headD '?'
-      { st := st, expected := if v == '?' then none else some (String.singleton v), spec := specFlip mk bit gv,
-        cov := ["flip-" ++ String.singleton v] }
+      match readerOf (flipBit mk.w bit) cuts mk.segLens with
+      | none => { st := st, expected := some "bad-op" }
+      | some r =>
+        let (v, _) := modelVerdict mk r
+        let gv := got.toList.headD '?'
+        { st := st, expected := if v == '?' then none else some (String.singleton v), spec := specFlip mk bit gv cuts,
+          cov := ["flip-" ++ String.singleton v] }
     | none, _ => { st := st, expected := some "skip" }
     | _, none => { st := st, expected := some "bad-op" }
-  | ["flipall"] =>
+  | "flipall" :: rest =>
+    let cuts := rest.headD "c"
     match st.last with
     | none => { st := st, expected := some "skip" }
     | some mk =>
       let gl := match got.splitOn " " with | [_, s] => s.toList | _ => []
       let n := 8 * mk.w.length
-      let model : List Char := (List.range n).map fun bit => (modelVerdict mk (newBufferReader (flipBit mk.w bit))).1
-      -- positions the model does not decide ('?': out-of-model length / allocation) are not compared
+      let model : List Char := (List.range n).map fun bit =>
+        match readerOf (flipBit mk.w bit) cuts mk.segLens with
+        | some r => (modelVerdict mk r).1
+        | none => '?'
+      -- positions the model does not decide ('?': LpPacket / AdditionalDescription) are not compared
       let merged := (List.range n).map fun i => let m := model.getD i '?'; if m == '?' then gl.getD i '?' else m
-      let spec := (List.range n).flatMap fun bit => specFlip mk bit (gl.getD bit '?')
+      let spec := (List.range n).flatMap fun bit => specFlip mk bit (gl.getD bit '?') cuts
       let tags := (model.eraseDups).map fun c => "flip-" ++ String.singleton c
       let regions := (if (Spec.signedRanges mk.w).isEmpty then [] else ["flip-signed-region"]) ++
-        (if (Spec.paramsRange mk.w).isSome then ["flip-params-region"] else [])
+        (if (Spec.paramsRange mk.w).isSome then ["flip-params-region"] else []) ++
+        (if (digestRange mk.w).isSome then ["flip-digest-region"] else []) ++
+        (match Spec.paramsRange mk.w with | some (lo, hi) => if hi - lo ≤ 2 then ["flip-params-empty"] else [] | none => [])
       { st := st, expected := some s!"{mk.w.length} {String.ofList merged}",
         spec := if isCrash got then [⟨"no-panic", "flipall", tk got 160⟩] else spec.take 4,
-        cov := "flipall" :: tags ++ regions }
+        cov := (if cuts == "c" then "flipall" else if cuts == "own" then "flipall-own" else "flipall-cuts") :: tags ++ regions }
   | _ => { st := st, expected := some "bad-op" }
 
 def main : IO Unit := Ndn.Driver.run ({} : St) stepC12
